@@ -80,6 +80,29 @@ func keyRunCustomPart(env *keyEnv) {
 	}
 }
 
+// keyRunBeyond14Part: the version test of the transparent EC representation is `>= 1.3`, and the library also
+// defines 2.0 and 2.1: the typed EC builders in the transparent format (and the default one) at those versions.
+func keyRunBeyond14Part(env *keyEnv) {
+	for _, s := range env.ecs {
+		if len(s.label) < 5 || s.label[len(s.label)-5:] != "-rand" {
+			continue
+		}
+		orig := &keyRtOrig{label: s.label, ec: s.key, ecCode: s.code}
+		bs := keyECBuilders(s.key)
+		for _, name := range []string{"EcdsaPrivateKey", "EcdsaPublicKey"} {
+			b := keyBuilderNamed(bs, name)
+			for _, ver := range []kmip.ProtocolVersion{kmip.V2_0, kmip.V2_1} {
+				for _, kf := range []uint8{0, 1} {
+					// codec path only: the library's server answers "Unsupported protocol version" to 2.x
+					for _, enc := range keyEncs {
+						keyRtCase(env, "codec", enc, ver, b, kf, orig)
+					}
+				}
+			}
+		}
+	}
+}
+
 // keyRunOutsidePart: inputs that are not keys of the property.
 func keyRunOutsidePart(env *keyEnv) {
 	ctx := env.ctx
